@@ -47,6 +47,11 @@ def run(report, tier, seed):
             b = codeclab.Lab(sc, ybin, 2 * i + 1, modelgen.Gen(seed * 100057 + i + 500), pkg=pkg2)
             a.edit = b.edit = edit
             labs += [a, b]
+        for j, (pa, pb, edit) in enumerate(directed_pairs()):
+            a = codeclab.Lab(sc, ybin, 900 + 2 * j, modelgen.Gen(seed * 13 + j), pkg=pa)
+            b = codeclab.Lab(sc, ybin, 901 + 2 * j, modelgen.Gen(seed * 13 + j + 77), pkg=pb)
+            a.edit = b.edit = edit
+            labs += [a, b]
         import concurrent.futures
         with concurrent.futures.ThreadPoolExecutor(max_workers=4) as ex:
             list(ex.map(lambda l: l.prepare(), labs))
@@ -56,8 +61,9 @@ def run(report, tier, seed):
                 report.violation(f"{a.stage}:model", {"seed": seed, "model_index": a.idx, "error": a.err, "files": _files(a)}, "")
                 continue
             report.count("models")
-            _corrupt(report, a, lean, rng, quick, seed)
-            _cross_protocol(report, a, lean, rng, seed)
+            if a.idx < 900:
+                _corrupt(report, a, lean, rng, quick, seed)
+                _cross_protocol(report, a, lean, rng, seed)
             if b.ok:
                 _cross_model(report, a, b, lean, rng, seed)
                 _cross_model(report, b, a, lean, rng, seed)
@@ -110,6 +116,37 @@ def neighbour(pkg, rng):
         return p2, f"{proto['name']}.{n}: renamed"
     proto["steps"].append(("z9", ("prim", "int32"), False))
     return p2, f"{proto['name']}: step added"
+
+
+def directed_pairs():
+    """Neighbour pairs whose single edit sits at a position reached only through a particular path:
+    second instantiation of a generic, alias chain, union case, map value, vector item."""
+    P = lambda n: ("prim", n)
+    pairs = []
+
+    def base():
+        pkg = modelgen.Package("Dp")
+        pkg.defs.append({"kind": "record", "name": "Box", "tparams": ["T"], "fields": [("v", ("tparam", "T")), ("n", P("int32"))]})
+        pkg.defs.append({"kind": "record", "name": "Info", "tparams": [], "fields": [("a", P("int32")), ("b", P("string"))]})
+        pkg.defs.append({"kind": "record", "name": "Reading", "tparams": [], "fields": [("level", P("int32")), ("t", P("float64"))]})
+        pkg.defs.append({"kind": "alias", "name": "ReadingAlias", "tparams": [], "type": ("named", "Reading", [])})
+        pkg.defs.append({"kind": "alias", "name": "Chain", "tparams": [], "type": ("named", "ReadingAlias", [])})
+        return pkg
+    shapes = {
+        "second-generic-instantiation": [("h", ("named", "Box", [("named", "Info", [])]), False), ("s", ("named", "Box", [("named", "Reading", [])]), True)],
+        "alias-chain": [("h", ("named", "Info", []), False), ("s", ("named", "Chain", []), True)],
+        "union-case": [("s", ("union", True, [("uI", ("named", "Info", [])), ("uR", ("named", "Reading", []))]), True)],
+        "map-value": [("s", ("map", P("string"), ("named", "Reading", [])), False)],
+        "vector-item-in-generic-arg": [("h", ("named", "Box", [P("int32")]), False), ("s", ("named", "Box", [("vec", ("named", "Reading", []), None)]), False)],
+    }
+    for name, steps in shapes.items():
+        a, b = base(), base()
+        for pkg in (a, b):
+            pkg.defs.append({"kind": "protocol", "name": "Pd", "steps": list(steps)})
+        rec = [d for d in b.defs if d["name"] == "Reading"][0]
+        rec["fields"][0] = ("level", P("uint32"))
+        pairs.append((a, b, f"directed:{name}: Reading.level int32->uint32"))
+    return pairs
 
 
 # ----------------------------------------------------------------------------- runs
@@ -201,6 +238,16 @@ def _cross_protocol(report, lab, lean, rng, seed):
 
 def _cross_model(report, src, dst, lean, rng, seed):
     for pname in src.protos:
+        if pname in dst.protos and src.schemas[pname] == dst.schemas[pname] and \
+                json.dumps(src.protos[pname]) != json.dumps(dst.protos[pname]):
+            # two protocols that encode values differently carry the same schema: the reader cannot
+            # tell the foreign stream from its own
+            report.case(distinct_key=("same-schema", src.idx, dst.idx, pname))
+            report.violation("schema-shared-by-different-encodings",
+                             {"edit": src.edit, "protocol": pname, "files_a": _files(src), "files_b": _files(dst),
+                              "schema": src.schemas[pname][:2000], "seed": seed},
+                             "a reader accepts (and mis-decodes) the stream of a model with a different encoding")
+            continue
         if pname in dst.protos and src.schemas[pname] != dst.schemas[pname]:
             for _ in range(3):
                 _feed(report, dst, lean, pname, _ref(src, lean, pname, src.gen), f"neighbour:{src.edit}", seed,
